@@ -74,7 +74,8 @@ def coq_ty(t):
     if k == "range":
         return "(RRange %s)" % coq_ty(t[1])
     if k == "named":
-        return "(RNamed %s %s)" % (coq_str(t[1]), coq_list([coq_ty(x) for x in t[2]]))
+        conc = CONCRETE.get(t[1], ())
+        return "(RNamed %s %s)" % (coq_str(t[1]), coq_list([coq_ty(x) for i, x in enumerate(t[2]) if i not in conc]))
     if k == "param":
         return "(RParam %d)" % t[1]
     raise ValueError(t)
@@ -139,6 +140,13 @@ def attr_list(prefix, items):
     return "#[%s(%s)] " % (prefix, ", ".join(items)) if items else ""
 
 
+def container_serde(d, sd):
+    """the container's serde attributes: one list, or (spelling serde_split) one attribute per entry, tag before content"""
+    if d.get("spelling") == "serde_split" and len(sd) > 1:
+        return "".join("#[serde(%s)] " % x for x in sd)
+    return attr_list("serde", sd)
+
+
 def field_attrs(f, named):
     ts, sd = [], []
     both = sd  # attributes understood by both derives are written in the serde spelling
@@ -194,6 +202,8 @@ def to_rust(d):
         ts.append("type = %s" % rust_str_lit(d["type"]))
     if d["as_"] is not None:
         ts.append("as = %s" % rust_str_lit(rust_ty(d["as_"])))
+    if d.get("concrete"):
+        ts.append("concrete(%s)" % ", ".join("%s = %s" % (pnames[int(i)], rust_ty(t)) for i, t in d["concrete"]))
     docs = "".join("#[doc = %s]\n" % rust_str_lit(l) for l in d["docs"])
     derives = "#[derive(TS, Serialize, Deserialize, Debug, Clone, PartialEq)]\n"
     if d["kind"] == "struct":
@@ -202,7 +212,7 @@ def to_rust(d):
         if d["optional_fields"] is not None:
             ts.append("optional_fields" if not d["optional_fields"] else "optional_fields = nullable")
         body = fields_src(d["shape"], d["fields"], pnames)
-        return "%s%s%s%spub struct %s%s%s%s" % (docs, derives, attr_list("ts", ts) and attr_list("ts", ts) + "\n", attr_list("serde", sd) and attr_list("serde", sd) + "\n",
+        return "%s%s%s%spub struct %s%s%s%s" % (docs, derives, attr_list("ts", ts) and attr_list("ts", ts) + "\n", container_serde(d, sd) and container_serde(d, sd) + "\n",
                                               d["ident"], params_src(d), (" " + body) if d["shape"] == "named" else body, "" if d["shape"] == "named" else ";")
     tg = d["tagging"]
     if tg[0] == "internal":
@@ -229,7 +239,7 @@ def to_rust(d):
         if v["as_"] is not None:
             vts.append("as = %s" % rust_str_lit(rust_ty(v["as_"])))
         vs.append(attr_list("ts", vts) + attr_list("serde", vsd) + v["ident"] + ((" " if v["shape"] == "named" else "") + fields_src(v["shape"], v["fields"], pnames)))
-    return "%s%s%s%spub enum %s%s { %s }" % (docs, derives, attr_list("ts", ts) and attr_list("ts", ts) + "\n", attr_list("serde", sd) and attr_list("serde", sd) + "\n",
+    return "%s%s%s%spub enum %s%s { %s }" % (docs, derives, attr_list("ts", ts) and attr_list("ts", ts) + "\n", container_serde(d, sd) and container_serde(d, sd) + "\n",
                                             d["ident"], params_src(d), ", ".join(vs))
 
 
@@ -256,16 +266,56 @@ def coq_rule(r):
     return "None" if r is None else "(Some %s)" % RULES[r]
 
 
+# `#[ts(concrete(P = Ty))]`: the impl exists only at P = Ty, the declaration and every reference drop the parameter.
+# The model has no such attribute: a definition using it is handed to Coq DESUGARED (the parameter removed, Ty
+# substituted in the field types) and references to it lose the argument at that position.  The Rust side is the
+# real attribute.  CONCRETE: identifier -> set of concretised parameter positions (register() fills it).
+CONCRETE = {}
+
+
+def register(defs):
+    CONCRETE.clear()
+    for d in defs:
+        if d.get("concrete"):
+            CONCRETE[d["ident"]] = {int(i) for i, _ in d["concrete"]}
+
+
+def desugar(d):
+    conc = {int(i): t for i, t in (d.get("concrete") or [])}
+    if not conc:
+        return d
+    import copy
+    args, k = [], 0
+    for i in range(len(d["params"])):
+        if i in conc:
+            args.append(conc[i])
+        else:
+            args.append(("param", k))
+            k += 1
+    d2 = copy.deepcopy(d)
+    d2["concrete"] = None
+    d2["params"] = [(n, subst(dflt, args) if dflt is not None else None) for i, (n, dflt) in enumerate(d["params"]) if i not in conc]
+    fs = d2["fields"] if d2["kind"] == "struct" else [f for v in d2["variants"] for f in v["fields"]]
+    for f in fs:
+        f["ty"] = subst(f["ty"], args)
+        if f.get("serde_ty") is not None:
+            f["serde_ty"] = subst(f["serde_ty"], args)
+        if f.get("as_") is not None:
+            f["as_"] = subst(f["as_"], args)
+    return d2
+
+
 def coq_attrs(d):
     return ("{| c_ident := %s; c_rename := %s; c_rename_all := %s; c_tag := %s; c_optional_fields := %s; c_docs := %s; "
             "c_export_to := %s; c_type := %s; c_as := %s; c_params := %s |}") % (
-        coq_str(d["ident"]), coq_option(d["rename"], coq_str), coq_rule(d["rename_all"]),
+        coq_str(d["ident"].replace("r#", "")), coq_option(d["rename"], coq_str), coq_rule(d["rename_all"]),
         coq_option(d.get("tag"), coq_str), coq_optional(d.get("optional_fields")), coq_list([coq_str(l) for l in d["docs"]]),
         coq_option(d["export_to"], coq_str), coq_option(d["type"], coq_str), coq_option(d["as_"], coq_ty),
         coq_list(["(%s, %s)" % (coq_str(n), coq_option(dflt, coq_ty)) for n, dflt in d["params"]]))
 
 
 def to_coq(d):
+    d = desugar(d)
     if d["kind"] == "struct":
         return "(DStruct %s %s)" % (coq_attrs(d), coq_shape(d["shape"], d["fields"]))
     tg = d["tagging"]
